@@ -60,6 +60,11 @@ def idxE (l : List Rat) (i : Nat) : Except Err Rat :=
   match l[i]? with
   | some v => .ok v
   | none => .error .other
+/-- `values[i]` on a sequence whose entries may be `None`. -/
+def idxO (l : List (Option Rat)) (i : Nat) : Except Err (Option Rat) :=
+  match l[i]? with
+  | some v => .ok v
+  | none => .error .other
 /-- `numpy.linspace(a, b, n)` (`ValueError` for a negative count). -/
 def linspaceE (a b : Rat) (n : Int) : Except Err (List Rat) :=
   if n < 0 then .error .valueError else .ok (linspace a b n.toNat)
@@ -116,6 +121,7 @@ def gridLines (region : List Rat) (g : GridSpec) : Except Err (List Rat × List 
     let (sn, se) ← match sp with
       | [s] => pure (s, s)
       | [a, b] => pure (a, b)
+      | [] => Except.error Err.other                 -- `spacing[1]` on an empty array: IndexError
       | _ => Except.error Err.valueError
     let east ← lineCoordinates r.w r.e none (some se) g.adjust g.pixel
     let north ← lineCoordinates r.s r.n none (some sn) g.adjust g.pixel
